@@ -1,4 +1,5 @@
 import Cbor.Lemmas.CopyCounts
+import Cbor.Lemmas.Positive
 /-!
 # C04 — reference counting frees everything exactly once for rule-following clients
 
@@ -193,32 +194,26 @@ theorem C04_step_simple (ω : Oracle) (L : Nat) (st : St) (op : Op) (hs : Op.sim
       | none => simp [ha, hx, St.bad, H.bad] at hf
       | some rx =>
         simp only [ha, hx] at hf ⊢
-        cases hg : st.h.get rx with
-        | none => simp [hg, St.bad, H.bad] at hf
-        | some c =>
-          simp only [hg] at hf ⊢
-          have hown := own_setSlot_none st x rx hx
-          have hc0 : Counts st.h (bump (own (st.setSlot x none)) rx 1) := by rw [hown]; exact hc
-          have hc1 := counts_move hc0 hg
-          cases hp : arrPush ω (st.h.put rx (some { c with rc := c.rc - 1 })) ra rx with
-          | mk ok h2 =>
-            rw [hp] at hf
-            cases ok with
-            | true =>
-              simp only at hf ⊢
-              have : (arrPush ω (st.h.put rx (some { c with rc := c.rc - 1 })) ra rx).2.fault = false := by rw [hp]; exact hf
-              have := arrPush_counts hc1 this
-              rw [hp] at this
-              exact this
-            | false =>
-              simp only at hf ⊢
-              obtain ⟨hf2, cx, hgx⟩ := incref_fault_false hf
-              have : (arrPush ω (st.h.put rx (some { c with rc := c.rc - 1 })) ra rx).2.fault = false := by rw [hp]; exact hf2
-              have hc2 := arrPush_counts hc1 this
+        cases hp : arrPush ω st.h ra rx with
+        | mk ok h2 =>
+          rw [hp] at hf
+          cases ok with
+          | false =>
+            simp only at hf ⊢
+            have := arrPush_counts (ω := ω) (a := ra) (x := rx) hc (by rw [hp]; exact hf)
+            rw [hp] at this
+            exact this
+          | true =>
+            simp only at hf ⊢
+            cases hg : h2.get rx with
+            | none => simp [hg, H.bad] at hf
+            | some c =>
+              simp only [hg] at hf ⊢
+              have hc2 := arrPush_counts (ω := ω) (a := ra) (x := rx) hc (by rw [hp]; simpa [St.setSlot] using hf)
               rw [hp] at hc2
-              have := counts_incref h2 _ rx cx hgx hc2
-              rw [hown] at this
-              exact this
+              have hown := own_setSlot_none st x rx hx
+              have hc0 : Counts h2 (bump (own (st.setSlot x none)) rx 1) := by rw [hown]; exact hc2
+              exact counts_move hc0 hg
   | set a i x =>
     simp only [step] at hf ⊢
     cases ha : st.slot a with
@@ -467,6 +462,170 @@ theorem C04_all_released (h : H) (o : Ref → Nat) (hc : Counts h o) (hz : ∀ r
       have h1 := hrank p cp hgp m hmp
       have h2 := hmax p ((hmem p).mpr (by rw [hgp]; rfl))
       omega
+
+theorem fresh_pos (st : St) (s : Nat) (o : Option Ref) (h' : H) (hp : Pos h') : Pos (st.fresh s (o, h')).1.h := by
+  unfold St.fresh
+  split
+  · exact pos_bad hp
+  · cases hsl : st.slot s with
+    | some v => exact pos_bad hp
+    | none =>
+      cases o with
+      | none => exact hp
+      | some x => exact hp
+
+/-- **Live items have positive counts**, after every operation of the history language (no hypothesis on the client) -/
+theorem C04_pos_step (ω : Oracle) (L : Nat) (st : St) (op : Op) (hp : Pos st.h) : Pos (step ω L st op).1.h := by
+  cases op with
+  | newInt s neg w v => exact fresh_pos st s _ _ (pos_new1 hp ω _)
+  | newStr s t b => exact fresh_pos st s _ _ (pos_new2 hp ω _)
+  | newStrI s t => exact fresh_pos st s _ _ (pos_new2 hp ω _)
+  | newArr s d cap =>
+    cases d with
+    | true => exact fresh_pos st s _ _ (pos_newMulti hp ω _ _ _)
+    | false => exact fresh_pos st s _ _ (pos_new1 hp ω _)
+  | newMap s d cap =>
+    cases d with
+    | true => exact fresh_pos st s _ _ (pos_newMulti hp ω _ _ _)
+    | false => exact fresh_pos st s _ _ (pos_new1 hp ω _)
+  | newTag s n => exact fresh_pos st s _ _ (pos_new1 hp ω _)
+  | newCtrl s v => exact fresh_pos st s _ _ (pos_new1 hp ω _)
+  | newHalf s v => exact fresh_pos st s _ _ (pos_new1 hp ω _)
+  | newSingle s v => exact fresh_pos st s _ _ (pos_new1 hp ω _)
+  | newDouble s v => exact fresh_pos st s _ _ (pos_new1 hp ω _)
+  | buildTag s n x =>
+    simp only [step]
+    cases hx : st.slot x with
+    | none => exact pos_bad hp
+    | some rx => exact fresh_pos st s _ _ (pos_buildTag hp ω n rx)
+  | push a x =>
+    simp only [step]
+    cases ha : st.slot a with
+    | none => exact pos_bad hp
+    | some ra =>
+      cases hx : st.slot x with
+      | none => exact pos_bad hp
+      | some rx => exact pos_arrPush hp ω ra rx
+  | pushMove a x =>
+    simp only [step]
+    cases ha : st.slot a with
+    | none => exact pos_bad hp
+    | some ra =>
+      cases hx : st.slot x with
+      | none => exact pos_bad hp
+      | some rx =>
+        simp only
+        have hq := pos_arrPush hp ω ra rx
+        cases hpp : arrPush ω st.h ra rx with
+        | mk ok h2 =>
+          rw [hpp] at hq
+          cases ok with
+          | false => exact hq
+          | true =>
+            simp only
+            cases hg : h2.get rx with
+            | none => exact pos_bad hq
+            | some c =>
+              have h2' := arrPush_true_ge2 hp ω ra rx h2 hpp c hg
+              exact pos_put hq rx _ (fun c' hc' => by cases hc'; simp only; omega)
+  | set a i x =>
+    simp only [step]
+    cases ha : st.slot a with
+    | none => exact pos_bad hp
+    | some ra =>
+      cases hx : st.slot x with
+      | none => exact pos_bad hp
+      | some rx => exact pos_arrSet hp ω ra i rx
+  | replace a i x =>
+    simp only [step]
+    cases ha : st.slot a with
+    | none => exact pos_bad hp
+    | some ra =>
+      cases hx : st.slot x with
+      | none => exact pos_bad hp
+      | some rx => exact pos_arrReplace hp ra i rx
+  | get s a i =>
+    simp only [step]
+    cases ha : st.slot a with
+    | none => exact pos_bad hp
+    | some ra => exact fresh_pos st s _ _ (pos_arrGet hp ra i)
+  | mapAdd m k v =>
+    simp only [step]
+    cases hm : st.slot m with
+    | none => exact pos_bad hp
+    | some rm =>
+      cases hk : st.slot k with
+      | none => exact pos_bad hp
+      | some rk =>
+        cases hv : st.slot v with
+        | none => exact pos_bad hp
+        | some rv => exact pos_mapAdd hp ω rm rk rv
+  | chunk s c =>
+    simp only [step]
+    cases hs' : st.slot s with
+    | none => exact pos_bad hp
+    | some rs =>
+      cases hc' : st.slot c with
+      | none => exact pos_bad hp
+      | some rc => exact pos_addChunk hp ω rs rc
+  | tagSet t x s =>
+    simp only [step]
+    cases ht : st.slot t with
+    | none => exact pos_bad hp
+    | some rt =>
+      cases hx : st.slot x with
+      | none => exact pos_bad hp
+      | some rx =>
+        simp only
+        have hq := pos_tagSet hp rt rx
+        cases hts : tagSet st.h rt rx with
+        | mk o h2 =>
+          rw [hts] at hq
+          cases o with
+          | none => exact hq
+          | some old =>
+            simp only
+            split
+            · exact pos_bad hq
+            · cases hsl : st.slot s with
+              | none => exact hq
+              | some v => exact pos_bad hq
+  | tagGet s t =>
+    simp only [step]
+    cases ht : st.slot t with
+    | none => exact pos_bad hp
+    | some rt => exact fresh_pos st s _ _ (pos_tagGet hp rt)
+  | copy s x =>
+    simp only [step]
+    cases hx : st.slot x with
+    | none => exact pos_bad hp
+    | some rx => exact fresh_pos st s _ _ ((pos_copy_all ω _).1 st.h rx hp)
+  | incref s x =>
+    simp only [step]
+    cases hx : st.slot x with
+    | none => exact pos_bad hp
+    | some rx => exact fresh_pos st s _ _ (pos_incref hp rx)
+  | decref s =>
+    simp only [step]
+    cases hs' : st.slot s with
+    | none => exact pos_bad hp
+    | some r => exact pos_hdecref hp r
+  | load s b =>
+    simp only [step]
+    exact fresh_pos st s _ _ (pos_load hp ω L b.toArray)
+
+theorem C04_pos_run (ω : Oracle) (L : Nat) : ∀ (ops : List Op) (st : St), Pos st.h → Pos (run ω L st ops).h
+  | [], _, hp => hp
+  | op :: ops, st, hp => C04_pos_run ω L ops _ (C04_pos_step ω L st op hp)
+
+/-- **Nothing is left.**  After any rule-following history from the empty heap, under any allocator oracle, if the client
+holds no reference any more and the containers it built are acyclic, no item is live: every block obtained through the
+allocator has been handed back. -/
+theorem C04_nothing_left (ω : Oracle) (L : Nat) (ops : List Op) (hr : RuleFollowing ω L {} ops)
+    (hz : ∀ r, own (run ω L {} ops) r = 0) (hac : Acyclic (run ω L {} ops).h) :
+    ∀ r, (run ω L {} ops).h.get r = none :=
+  C04_all_released _ _ (C04_run_from_init ω L ops hr) hz hac
+    (C04_pos_run ω L ops {} (fun r c hg => by simp [H.get] at hg))
 
 /-! non-vacuity: a concrete history builds an array holding an integer twice, drops everything, and ends empty -/
 example :
